@@ -24,6 +24,9 @@ class CallMixin:
 
     def getattr_value(self, base, name, node=None, default=None):
         k = base.k
+        if k == 'obj' and '__store__' in self.st.heap[base.t].f and name in ('items', 'values', 'keys', 'get'):
+            # an instance of a dict subclass (collections.defaultdict): dictionary methods act on its store
+            return SV('func', FuncVal(builtin='meth:' + name, bound=self.st.heap[base.t].f['__store__'], name=name))
         if k == 'obj':
             h = self.st.heap[base.t]
             if name in h.f:
@@ -184,6 +187,8 @@ class CallMixin:
         return getattr(self, 'opq_model_table', {})
 
     def module_attr(self, mod, name):
+        if mod.name in ('eflr_types', 'enums') and name in self.src.classes:
+            return SV('cls', name)
         return SV('const', B.ModuleRef(mod.name + '.' + name))
 
     def class_member(self, mem, cls, name, recv, node):
@@ -574,7 +579,10 @@ class CallMixin:
                 return self.st.ghost[ck]       # a pure abstract callee: same receiver state, same result
             if st.get('raises') and self.st.oracle.choose(2) == 1:
                 raise PyRaise('StubException', f.name)
-            r = self.fresh_of(st.get('returns', 'none'), 'stub_' + f.name)
+            if 'returns_expr' in st:
+                r = self.ev_spec(st['returns_expr'], dict(self.st.frames[0].env))
+            else:
+                r = self.fresh_of(st.get('returns', 'none'), 'stub_' + f.name)
             self.st.ghost['stub_result_' + f.name] = r
             self.st.ghost[ck] = r
             return r
@@ -777,6 +785,8 @@ class CallMixin:
 
     # ---------------------------------------------------------------- type specs
     def fresh_of(self, spec, hint='v'):
+        if isinstance(spec, dict) and 'list' in spec:
+            return SV('list', self.st.alloc(HList([self.fresh_of(x, f'{hint}_{i}') for i, x in enumerate(spec['list'])])))
         if isinstance(spec, dict):
             return self.fresh_obj(spec.get('cls'), spec, hint)
         spec = spec.strip()
@@ -803,6 +813,21 @@ class CallMixin:
         if spec.startswith('tuple['):
             parts = split_top(spec[6:-1])
             return SV('tuple', tuple(self.fresh_of(p, f'{hint}_{i}') for i, p in enumerate(parts)))
+        if spec.startswith('clsdict{'):
+            d = {}
+            for part in split_top(spec[8:-1]):
+                k, _, vs = part.partition(':')
+                d[('cls', k.strip())] = self.fresh_of(vs.strip(), f'{hint}_{k.strip()}')
+            h = HDict(d)
+            h.default = SV('func', FuncVal(builtin='dict', name='dict'))
+            return SV('dict', self.st.alloc(h))
+        if spec.startswith('namedict{'):
+            d = {}
+            for part in split_top(spec[9:-1]):
+                k, _, vs = part.partition(':')
+                kk = ('n',) if k.strip() == 'None' else ('c', k.strip())
+                d[kk] = self.fresh_of(vs.strip(), f'{hint}_{k.strip()}')
+            return SV('dict', self.st.alloc(HDict(d)))
         if spec.startswith('dict{'):
             d = {}
             for part in split_top(spec[5:-1]):
